@@ -86,7 +86,8 @@ Proof.
   destruct lp as [|d rest]; [contradiction|].
   cbn [firstn tl].
   rewrite (text_eqb_sym (d :: rest) h).
-  rewrite endswith_strip_suffix.
+  rewrite endswith_strip_suffix, Facts_ok_dot.
+  cbn [text_eqb]. rewrite andb_true_r.
   rewrite orb_comm. f_equal. f_equal. apply orb_comm.
 Qed.
 
@@ -226,35 +227,56 @@ Proof.
   destruct (existsb (is_same_domain nl) _); reflexivity.
 Qed.
 
+(* the regenerated constants are the documented ones *)
+Lemma own_host_is_spec r : own_host r = spec_own_host r.
+Proof.
+  unfold own_host, spec_own_host.
+  change std_ports with [s_443; s_80]. change own_format with [(1, @nil N); (0, [58]); (2, @nil N)].
+  cbn [mem_text flat_map fst snd]. rewrite orb_false_r, (orb_comm (text_eqb _ s_443)), !app_nil_r.
+  reflexivity.
+Qed.
+
+Lemma claimed_origin_doc r :
+  claimed_origin r =
+  match header_get s_origin_hdr r with
+  | None => (env_get lit_HTTP_REFERER r, true)
+  | Some o => (Some (last (split_on 32 o) []), false)
+  end.
+Proof.
+  unfold claimed_origin. change origin_header with s_origin_hdr. change origin_pick_last with true.
+  change origin_sep with [32]. reflexivity.
+Qed.
+
 Lemma origin_pass_iff pr settings caller allow r :
   fst (check_csrf_origin_p pr settings caller allow r) = OPass <-> spec_origin_ok settings caller allow r = true.
 Proof.
   rewrite check_origin_unfold. unfold spec_origin_ok, spec_trusted.
-  destruct (text_eqb (req_scheme r) https_req); cbn [negb]; [|tauto].
+  change https_req with s_https. rewrite own_host_is_spec, claimed_origin_doc.
+  destruct (text_eqb (req_scheme r) s_https); cbn [negb]; [|tauto].
   set (base := match caller with Some l => l | None => aslist settings end).
   replace (match caller with None => aslist settings | Some l => l end) with base by (destruct caller; reflexivity).
-  unfold claimed_origin, spec_claim.
-  destruct (header_get origin_header r) as [o|]; cbn [fst snd or_empty].
-  - set (item := if origin_pick_last then last (split_on (hd 32 origin_sep) o) [] else hd [] (split_on (hd 32 origin_sep) o)).
+  unfold spec_claim.
+  destruct (header_get s_origin_hdr r) as [o|]; cbn [fst snd or_empty].
+  - set (item := last (split_on 32 o) []).
     destruct (is_empty item) eqn:Ei.
     + destruct allow; split; congruence.
-    + unfold decide_origin. cbn [negb andb].
-      destruct (text_eqb item null_origin) eqn:En.
+    + unfold decide_origin. cbn [negb andb]. change null_origin with s_null. change https_origin with s_https.
+      destruct (text_eqb item s_null) eqn:En.
       * apply text_eqb_eq in En. rewrite En, mem_text_snoc.
-        destruct (mem_text null_origin (own_host r :: base)); split; congruence.
+        destruct (mem_text s_null (spec_own_host r :: base)); split; congruence.
       * destruct (urlparse_m (r_v6 r) item) as [sc nl| |].
-        -- destruct (text_eqb sc https_origin); cbn [negb andb]; [|split; congruence].
+        -- destruct (text_eqb sc s_https); cbn [negb andb]; [|split; congruence].
            rewrite existsb_snoc, existsb_same_domain.
-           destruct (existsb (domain_matches nl) (own_host r :: base)); split; congruence.
+           destruct (existsb (domain_matches nl) (spec_own_host r :: base)); split; congruence.
         -- destruct (p_catch pr); split; congruence.
         -- split; congruence.
   - destruct (env_get lit_HTTP_REFERER r) as [[|c o]|]; cbn [or_empty is_empty].
     + destruct allow; split; congruence.
-    + unfold decide_origin. cbn [negb andb].
+    + unfold decide_origin. cbn [negb andb]. change https_origin with s_https.
       destruct (urlparse_m (r_v6 r) (c :: o)) as [sc nl| |].
-      * destruct (text_eqb sc https_origin); cbn [negb andb]; [|split; congruence].
+      * destruct (text_eqb sc s_https); cbn [negb andb]; [|split; congruence].
         rewrite existsb_snoc, existsb_same_domain.
-        destruct (existsb (domain_matches nl) (own_host r :: base)); split; congruence.
+        destruct (existsb (domain_matches nl) (spec_own_host r :: base)); split; congruence.
       * destruct (p_catch pr); split; congruence.
       * split; congruence.
     + destruct allow; split; congruence.
@@ -265,14 +287,14 @@ Lemma origin_no_raise pr settings caller allow r e :
   p_catch pr = true -> parse_defined r = true ->
   fst (check_csrf_origin_p pr settings caller allow r) <> ORaise e.
 Proof.
-  intros Hc Hp. rewrite check_origin_unfold. unfold parse_defined in Hp.
+  intros Hc Hp. rewrite check_origin_unfold, claimed_origin_doc. unfold parse_defined in Hp.
   destruct (negb (text_eqb (req_scheme r) https_req)); [discriminate|].
-  revert Hp. unfold claimed_origin, spec_claim.
-  destruct (header_get origin_header r) as [o|]; cbn [fst snd or_empty].
-  - set (item := if origin_pick_last then last (split_on (hd 32 origin_sep) o) [] else hd [] (split_on (hd 32 origin_sep) o)).
+  revert Hp. unfold spec_claim.
+  destruct (header_get s_origin_hdr r) as [o|]; cbn [fst snd or_empty].
+  - set (item := last (split_on 32 o) []).
     destruct (is_empty item) eqn:Ei; [destruct allow; discriminate|].
-    unfold decide_origin. cbn [negb andb].
-    destruct (text_eqb item null_origin) eqn:En.
+    unfold decide_origin. cbn [negb andb]. change null_origin with s_null.
+    destruct (text_eqb item s_null) eqn:En.
     + intros _. destruct (mem_text item _); discriminate.
     + destruct (urlparse_m (r_v6 r) item) as [sc nl| |]; intros Hp.
       * destruct (negb (text_eqb sc https_origin)); [discriminate|]. destruct (existsb _ _); discriminate.
@@ -287,9 +309,12 @@ Proof.
 Qed.
 
 (* ------------------------------------------------------------------ the wrapper *)
+Lemma effective_is_spec c : effective c = spec_effective c.
+Proof. unfold effective, spec_effective. destruct (c_defaults c); reflexivity. Qed.
+
 Lemma enabled_is_in_force c : csrf_enabled c = spec_in_force c.
 Proof.
-  unfold csrf_enabled, spec_in_force.
+  unfold csrf_enabled, spec_in_force. rewrite effective_is_spec.
   destruct (c_explicit c) as [[|]|]; cbn [is_true is_false negb orb andb].
   - reflexivity.
   - reflexivity.
@@ -298,23 +323,23 @@ Qed.
 
 Lemma checks_apply_is_checked c r : checks_apply c r = spec_checked c r.
 Proof.
-  unfold checks_apply, spec_checked. rewrite enabled_is_in_force.
-  destruct (o_callback (effective c)); cbn [negb orb]; reflexivity.
+  unfold checks_apply, spec_checked. rewrite enabled_is_in_force, effective_is_spec.
+  destruct (o_callback (spec_effective c)); cbn [negb orb]; reflexivity.
 Qed.
 
 (* for ANY value of the repair parameters: if the body ran, the declarative conditions held *)
 Lemma body_never_runs_on_failure pr c r : view_outcome_p pr c r = Ran -> spec_runs c r = true.
 Proof.
-  unfold view_outcome_p, spec_runs. rewrite checks_apply_is_checked.
+  unfold view_outcome_p, spec_runs. cbv zeta. rewrite checks_apply_is_checked. change (effective c) with (spec_effective c).
   destruct (spec_checked c r); [|reflexivity].
-  destruct (o_check_origin (effective c)).
-  - destruct (fst (check_csrf_origin_p pr (c_settings c) None (o_allow_no_origin (effective c)) r)) eqn:Eo;
+  destruct (o_check_origin (spec_effective c)).
+  - destruct (fst (check_csrf_origin_p pr (c_settings c) None (o_allow_no_origin (spec_effective c)) r)) eqn:Eo;
       try discriminate.
     apply origin_pass_iff in Eo. rewrite Eo.
-    destruct (check_csrf_token_p pr (c_storage c) (o_token (effective c)) (o_header (effective c)) r) eqn:Et;
+    destruct (check_csrf_token_p pr (c_storage c) (o_token (spec_effective c)) (o_header (spec_effective c)) r) eqn:Et;
       try discriminate.
     apply token_pass_spec in Et. rewrite Et. reflexivity.
-  - destruct (check_csrf_token_p pr (c_storage c) (o_token (effective c)) (o_header (effective c)) r) eqn:Et;
+  - destruct (check_csrf_token_p pr (c_storage c) (o_token (spec_effective c)) (o_header (spec_effective c)) r) eqn:Et;
       try discriminate.
     apply token_pass_spec in Et. rewrite Et. reflexivity.
 Qed.
@@ -322,8 +347,8 @@ Qed.
 Lemma wf_tokens_split c r :
   wf_tokens c r = true ->
   forallb valid_scalar (expected_token (c_storage c) r) = true /\
-  forallb valid_scalar (supplied_token (o_token (effective c)) (o_header (effective c)) r) = true.
-Proof. unfold wf_tokens. intros H. apply andb_true_iff in H. exact H. Qed.
+  forallb valid_scalar (supplied_token (o_token (spec_effective c)) (o_header (spec_effective c)) r) = true.
+Proof. unfold wf_tokens. rewrite <- supplied_is_spec. intros H. apply andb_true_iff in H. exact H. Qed.
 
 (* with UTF-8 comparison: the body runs exactly when the declarative conditions hold *)
 Lemma gate_p pr c r :
@@ -332,10 +357,10 @@ Lemma gate_p pr c r :
 Proof.
   intros Hu Hwf. split; [apply body_never_runs_on_failure|].
   destruct (wf_tokens_split c r Hwf) as [W1 W2].
-  unfold view_outcome_p, spec_runs. rewrite checks_apply_is_checked.
+  unfold view_outcome_p, spec_runs. cbv zeta. rewrite checks_apply_is_checked. change (effective c) with (spec_effective c).
   destruct (spec_checked c r); [|reflexivity].
   rewrite (token_verdict_utf8 pr _ _ _ r Hu W1 W2).
-  destruct (o_check_origin (effective c)).
+  destruct (o_check_origin (spec_effective c)).
   - intros H. apply andb_true_iff in H as [Ho Ht].
     apply origin_pass_iff with (pr := pr) in Ho. rewrite Ho, Ht. reflexivity.
   - cbn [andb]. intros Ht. rewrite Ht. reflexivity.
@@ -346,11 +371,11 @@ Lemma no_raise_p pr c r e :
   view_outcome_p pr c r <> Raised e.
 Proof.
   intros Hu Hc Hwf Hp. destruct (wf_tokens_split c r Hwf) as [W1 W2].
-  unfold view_outcome_p. destruct (checks_apply c r); [|discriminate].
+  unfold view_outcome_p. cbv zeta. change (effective c) with (spec_effective c). destruct (checks_apply c r); [|discriminate].
   rewrite (token_verdict_utf8 pr _ _ _ r Hu W1 W2).
-  destruct (o_check_origin (effective c)).
-  - pose proof (origin_no_raise pr (c_settings c) None (o_allow_no_origin (effective c)) r) as Hn.
-    destruct (fst (check_csrf_origin_p pr (c_settings c) None (o_allow_no_origin (effective c)) r)) as [|w|e'].
+  destruct (o_check_origin (spec_effective c)).
+  - pose proof (origin_no_raise pr (c_settings c) None (o_allow_no_origin (spec_effective c)) r) as Hn.
+    destruct (fst (check_csrf_origin_p pr (c_settings c) None (o_allow_no_origin (spec_effective c)) r)) as [|w|e'].
     + destruct (spec_token_ok _ _ _ r); discriminate.
     + discriminate.
     + exfalso. apply (Hn e'); auto.
@@ -379,19 +404,19 @@ Qed.
 (* which check rejected: origin first, then token *)
 Lemma rejection_kind c r :
   wf_tokens c r = true -> parse_defined r = true -> spec_checked c r = true ->
-  let o := effective c in
+  let o := spec_effective c in
   let origin_ok := if o_check_origin o then spec_origin_ok (c_settings c) None (o_allow_no_origin o) r else true in
   (origin_ok = false -> exists w, view_outcome c r = BadOrigin w) /\
   (origin_ok = true -> spec_token_ok (c_storage c) (o_token o) (o_header o) r = false -> view_outcome c r = BadToken).
 Proof.
   intros Hwf Hp Hck. destruct (the_params_ok (c_storage c)) as (_ & Hu & Hc).
   destruct (wf_tokens_split c r Hwf) as [W1 W2]. cbv zeta.
-  unfold view_outcome, view_outcome_p. rewrite checks_apply_is_checked, Hck.
+  unfold view_outcome, view_outcome_p. cbv zeta. rewrite checks_apply_is_checked, Hck. change (effective c) with (spec_effective c).
   rewrite (token_verdict_utf8 _ _ _ _ r Hu W1 W2).
-  destruct (o_check_origin (effective c)).
-  - pose proof (origin_pass_iff (the_params (c_storage c)) (c_settings c) None (o_allow_no_origin (effective c)) r) as Hi.
-    pose proof (origin_no_raise (the_params (c_storage c)) (c_settings c) None (o_allow_no_origin (effective c)) r) as Hn.
-    destruct (fst (check_csrf_origin_p (the_params (c_storage c)) (c_settings c) None (o_allow_no_origin (effective c)) r)) as [|w|e'].
+  destruct (o_check_origin (spec_effective c)).
+  - pose proof (origin_pass_iff (the_params (c_storage c)) (c_settings c) None (o_allow_no_origin (spec_effective c)) r) as Hi.
+    pose proof (origin_no_raise (the_params (c_storage c)) (c_settings c) None (o_allow_no_origin (spec_effective c)) r) as Hn.
+    destruct (fst (check_csrf_origin_p (the_params (c_storage c)) (c_settings c) None (o_allow_no_origin (spec_effective c)) r)) as [|w|e'].
     + split.
       * intros Hf. destruct Hi as [Hi _]. rewrite Hi in Hf by reflexivity. discriminate.
       * intros _ Ht. rewrite Ht. reflexivity.
@@ -489,14 +514,14 @@ Definition same_domain_P (h p : text) : Prop :=
 
 Lemma origin_ok_meaning settings caller allow r :
   spec_origin_ok settings caller allow r = true <->
-  req_scheme r <> https_req \/
+  req_scheme r <> s_https \/
   (spec_claim r = NoOrigin /\ allow = true) \/
-  (spec_claim r = NullOrigin /\ In null_origin (spec_trusted settings caller r)) \/
-  (exists o netloc, spec_claim r = Claims o /\ urlparse_m (r_v6 r) o = PUrl https_origin netloc /\
+  (spec_claim r = NullOrigin /\ In s_null (spec_trusted settings caller r)) \/
+  (exists o netloc, spec_claim r = Claims o /\ urlparse_m (r_v6 r) o = PUrl s_https netloc /\
                     exists p, In p (spec_trusted settings caller r) /\ same_domain_P netloc p).
 Proof.
   unfold spec_origin_ok.
-  destruct (text_eqb_spec (req_scheme r) https_req) as [Es|Es]; [|split; auto].
+  destruct (text_eqb_spec (req_scheme r) s_https) as [Es|Es]; [|split; auto].
   destruct (spec_claim r) as [| |o] eqn:Ec.
   - split.
     + intros ->. right. left. auto.
@@ -506,11 +531,11 @@ Proof.
     + intros [H|[[H _]|[[_ H]|(o & nl & H & _)]]]; try congruence; try contradiction.
   - split.
     + intros H. right. right. right.
-      destruct (urlparse_m (r_v6 r) o) as [sc nl| |]; try discriminate.
+      destruct (urlparse_m (r_v6 r) o) as [sc nl| |] eqn:Eu; try discriminate.
       apply andb_true_iff in H as [H1 H2]. apply text_eqb_eq in H1. subst sc.
       apply existsb_exists in H2 as (p & Hin & Hp).
       rewrite <- same_domain_matches in Hp. apply same_domain_spec_lemma in Hp.
-      exists o, nl. repeat split; auto. exists p. split; assumption.
+      exists o, nl. split; [reflexivity|]. split; [exact Eu|]. exists p. split; assumption.
     + intros [H|[[H _]|[[H _]|(o' & nl & H & Hu & p & Hin & Hp)]]]; try congruence; try contradiction.
       injection H as <-. rewrite Hu. rewrite text_eqb_refl. cbn [andb].
       apply existsb_exists. exists p. split; [assumption|].
@@ -533,4 +558,190 @@ Proof.
   intros Hd Hx. unfold view_outcome_p, checks_apply, csrf_enabled, effective. rewrite Hd.
   destruct Facts_ok_defaults as (Hr & _). cbn [o_require]. rewrite Hr.
   destruct (c_explicit c) as [[|]|]; [contradiction| |]; reflexivity.
+Qed.
+
+(* ------------------------------------------------------------------ a same-origin request passes *)
+(* the request's own host, written as browsers write it: lower case, no URL delimiters,
+   brackets, blanks or control characters, latin-1 *)
+Definition clean_char (c : N) : bool :=
+  (32 <? c) && (c <? 256) && negb (memN c [47; 63; 35; 91; 93]).
+Definition clean_host (h : text) : bool :=
+  forallb clean_char h && text_eqb (lower h) h && negb (is_empty h).
+
+Lemma filter_all {A} (f : A -> bool) l : forallb f l = true -> filter f l = l.
+Proof.
+  induction l as [|x l IH]; simpl; [reflexivity|]. intros H. apply andb_true_iff in H as [H1 H2].
+  rewrite H1, IH by assumption. reflexivity.
+Qed.
+
+Lemma take_while_all f l : forallb f l = true -> take_while f l = l.
+Proof.
+  induction l as [|x l IH]; simpl; [reflexivity|]. intros H. apply andb_true_iff in H as [H1 H2].
+  rewrite H1, IH by assumption. reflexivity.
+Qed.
+
+Lemma forallb_impl {A} (f g : A -> bool) l :
+  (forall x, f x = true -> g x = true) -> forallb f l = true -> forallb g l = true.
+Proof.
+  intros Hi. induction l as [|x l IH]; simpl; [reflexivity|]. intros H. apply andb_true_iff in H as [H1 H2].
+  rewrite (Hi x H1), IH by assumption. reflexivity.
+Qed.
+
+Lemma memN_false_forallb c l : forallb (fun x => negb (x =? c)) l = true -> memN c l = false.
+Proof.
+  induction l as [|x l IH]; simpl; [reflexivity|]. intros H. apply andb_true_iff in H as [H1 H2].
+  rewrite IH by assumption. rewrite N.eqb_sym. apply negb_true_iff in H1. rewrite H1. reflexivity.
+Qed.
+
+Lemma clean_char_facts c :
+  clean_char c = true ->
+  negb (memN c url_unsafe) = true /\ negb (memN c netloc_delims) = true /\ negb (c =? 91) = true /\
+  negb (c =? 93) = true /\ negb (c =? 32) = true /\ (c <? 256) = true.
+Proof.
+  unfold clean_char. intros H. apply andb_true_iff in H as [H H3]. apply andb_true_iff in H as [H1 H2].
+  change url_unsafe with [9; 10; 13]. unfold netloc_delims. cbn [memN] in *.
+  repeat split; lia.
+Qed.
+
+Lemma urlparse_own_origin v6 h :
+  forallb clean_char h = true ->
+  urlparse_m v6 (s_https ++ [58; 47; 47] ++ h) = PUrl s_https h.
+Proof.
+  intros Hc.
+  assert (H1 : forallb (fun c => negb (memN c url_unsafe)) h = true)
+    by (eapply forallb_impl; [|exact Hc]; intros x Hx; apply clean_char_facts in Hx; tauto).
+  assert (H2 : forallb (fun c => negb (memN c netloc_delims)) h = true)
+    by (eapply forallb_impl; [|exact Hc]; intros x Hx; apply clean_char_facts in Hx; tauto).
+  assert (H3 : memN 91 h = false)
+    by (apply memN_false_forallb; eapply forallb_impl; [|exact Hc]; intros x Hx; apply clean_char_facts in Hx; tauto).
+  assert (H4 : memN 93 h = false)
+    by (apply memN_false_forallb; eapply forallb_impl; [|exact Hc]; intros x Hx; apply clean_char_facts in Hx; tauto).
+  assert (H5 : forallb (fun c => c <? 256) h = true)
+    by (eapply forallb_impl; [|exact Hc]; intros x Hx; apply clean_char_facts in Hx; tauto).
+  unfold urlparse_m.
+  change (s_https ++ [58; 47; 47] ++ h) with (104 :: ([116; 116; 112; 115; 58; 47; 47] ++ h)).
+  cbn [drop_while].
+  assert (E0 : memN 104 url_c0 = false) by (vm_compute; reflexivity). rewrite E0.
+  change (104 :: [116; 116; 112; 115; 58; 47; 47] ++ h) with ([104; 116; 116; 112; 115; 58; 47; 47] ++ h).
+  rewrite filter_app, (filter_all _ h H1).
+  assert (E1 : filter (fun c => negb (memN c url_unsafe)) [104; 116; 116; 112; 115; 58; 47; 47]
+               = [104; 116; 116; 112; 115; 58; 47; 47]) by (vm_compute; reflexivity).
+  rewrite E1.
+  assert (E2 : split_scheme ([104; 116; 116; 112; 115; 58; 47; 47] ++ h) = (s_https, 47 :: 47 :: h)).
+  { unfold split_scheme. cbn [app cut_at N.eqb Pos.eqb].
+    assert (E3 : is_ascii_alpha 104 && forallb (fun c => memN c url_scheme_chars) [104; 116; 116; 112; 115] = true)
+      by (vm_compute; reflexivity).
+    rewrite E3. reflexivity. }
+  rewrite E2.
+  rewrite (take_while_all _ h H2), H3, H4. cbn [xorb andb].
+  unfold checknetloc. rewrite H5. reflexivity.
+Qed.
+
+Lemma clean_no_space h : forallb clean_char h = true -> ~ In 32 h.
+Proof.
+  intros Hc Hin. rewrite forallb_forall in Hc. specialize (Hc 32 Hin). vm_compute in Hc. discriminate.
+Qed.
+
+(* on https, `Origin: https://<own host>` passes the origin check whatever else is configured *)
+Lemma own_origin_accepted pr settings caller allow r :
+  req_scheme r = s_https ->
+  header_get s_origin_hdr r = Some (s_https ++ [58; 47; 47] ++ spec_own_host r) ->
+  clean_host (spec_own_host r) = true ->
+  fst (check_csrf_origin_p pr settings caller allow r) = OPass.
+Proof.
+  intros Hs Ho Hc. apply origin_pass_iff.
+  unfold clean_host in Hc. apply andb_true_iff in Hc as [Hc Hne]. apply andb_true_iff in Hc as [Hc Hl].
+  apply text_eqb_eq in Hl.
+  unfold spec_origin_ok. rewrite Hs, text_eqb_refl.
+  unfold spec_claim. rewrite Ho.
+  set (own := spec_own_host r) in *.
+  assert (Hnosp : ~ In 32 (s_https ++ [58; 47; 47] ++ own)).
+  { intros Hin. apply in_app_or in Hin as [Hin|Hin]; [vm_compute in Hin; intuition discriminate|].
+    apply in_app_or in Hin as [Hin|Hin]; [vm_compute in Hin; intuition discriminate|].
+    exact (clean_no_space own Hc Hin). }
+  rewrite (split_on_nosep_id 32 _ Hnosp). cbn [last].
+  change (s_https ++ [58; 47; 47] ++ own) with (104 :: ([116; 116; 112; 115; 58; 47; 47] ++ own)).
+  cbn [is_empty]. 
+  assert (En : text_eqb (104 :: [116; 116; 112; 115; 58; 47; 47] ++ own) s_null = false) by reflexivity.
+  rewrite En.
+  change (104 :: [116; 116; 112; 115; 58; 47; 47] ++ own) with (s_https ++ [58; 47; 47] ++ own).
+  rewrite (urlparse_own_origin _ own Hc), text_eqb_refl. cbn [andb].
+  unfold spec_trusted. fold own. cbn [existsb].
+  assert (Hd : domain_matches own own = true).
+  { unfold domain_matches. rewrite Hl, Hne, text_eqb_refl. reflexivity. }
+  rewrite Hd. reflexivity.
+Qed.
+
+(* ... and with the stored token it reaches the body *)
+Lemma same_origin_request_runs c r :
+  wf_tokens c r = true ->
+  req_scheme r = s_https ->
+  header_get s_origin_hdr r = Some (s_https ++ [58; 47; 47] ++ spec_own_host r) ->
+  clean_host (spec_own_host r) = true ->
+  spec_token_ok (c_storage c) (o_token (spec_effective c)) (o_header (spec_effective c)) r = true ->
+  view_outcome c r = Ran.
+Proof.
+  intros Hwf Hs Ho Hc Ht. apply csrf_gate; [exact Hwf|].
+  unfold spec_runs. destruct (spec_checked c r); [|reflexivity].
+  rewrite Ht, andb_true_r.
+  destruct (o_check_origin (spec_effective c)); [|reflexivity].
+  apply (origin_pass_iff (the_params (c_storage c))). apply own_origin_accepted; assumption.
+Qed.
+
+(* ------------------------------------------------------------------ the QUERY_STRING environ entry is never read *)
+Lemma lookup_map_other k k0 v l :
+  text_eqb k k0 = false ->
+  lookup k (map (fun kv : text * text => if text_eqb (fst kv) k0 then (k0, v) else kv) l) = lookup k l.
+Proof.
+  intros Hk. induction l as [|[k' v'] l IH]; [reflexivity|]. cbn [map fst].
+  destruct (text_eqb_spec k' k0) as [->|Hne].
+  - cbn [lookup]. rewrite Hk. exact IH.
+  - cbn [lookup]. rewrite IH. reflexivity.
+Qed.
+
+Lemma env_get_qs k r v :
+  text_eqb k k_QUERY_STRING = false -> env_get k (with_query_string r v) = env_get k r.
+Proof. intros H. unfold env_get, with_query_string. cbn [r_env]. apply lookup_map_other. exact H. Qed.
+
+Lemma trans_name_not_qs h : text_eqb (trans_name h) k_QUERY_STRING = false.
+Proof.
+  unfold trans_name.
+  destruct (text_eqb (upper h) lit_CONTENT_TYPE_hdr); [reflexivity|].
+  destruct (text_eqb (upper h) lit_CONTENT_LENGTH_hdr); reflexivity.
+Qed.
+
+Lemma header_get_qs h r v : header_get h (with_query_string r v) = header_get h r.
+Proof. unfold header_get. apply env_get_qs. apply trans_name_not_qs. Qed.
+
+Lemma req_scheme_qs r v : req_scheme (with_query_string r v) = req_scheme r.
+Proof. unfold req_scheme. rewrite env_get_qs by reflexivity. reflexivity. Qed.
+Lemma req_method_qs r v : req_method (with_query_string r v) = req_method r.
+Proof. unfold req_method. rewrite env_get_qs by reflexivity. reflexivity. Qed.
+Lemma req_host_qs r v : req_host (with_query_string r v) = req_host r.
+Proof. unfold req_host. rewrite !env_get_qs by reflexivity. reflexivity. Qed.
+Lemma req_domain_qs r v : req_domain (with_query_string r v) = req_domain r.
+Proof. unfold req_domain. rewrite req_host_qs. reflexivity. Qed.
+Lemma req_host_port_qs r v : req_host_port (with_query_string r v) = req_host_port r.
+Proof. unfold req_host_port. rewrite !env_get_qs by reflexivity. rewrite req_scheme_qs. reflexivity. Qed.
+Lemma own_host_qs r v : own_host (with_query_string r v) = own_host r.
+Proof. unfold own_host. rewrite req_host_port_qs, req_domain_qs. reflexivity. Qed.
+Lemma claimed_origin_qs r v : claimed_origin (with_query_string r v) = claimed_origin r.
+Proof. unfold claimed_origin. rewrite header_get_qs, env_get_qs by reflexivity. reflexivity. Qed.
+
+Lemma check_origin_qs pr settings caller allow r v :
+  check_csrf_origin_p pr settings caller allow (with_query_string r v) = check_csrf_origin_p pr settings caller allow r.
+Proof.
+  unfold check_csrf_origin_p. rewrite req_scheme_qs, claimed_origin_qs, own_host_qs. reflexivity.
+Qed.
+
+Lemma check_token_qs pr s token header r v :
+  check_csrf_token_p pr s token header (with_query_string r v) = check_csrf_token_p pr s token header r.
+Proof.
+  unfold check_csrf_token_p, policy_check, supplied_token, expected_token.
+  destruct header as [h|]; [rewrite header_get_qs|]; reflexivity.
+Qed.
+
+Lemma query_string_never_read pr c r v : view_outcome_p pr c (with_query_string r v) = view_outcome_p pr c r.
+Proof.
+  unfold view_outcome_p, checks_apply. rewrite req_method_qs, check_origin_qs, check_token_qs. reflexivity.
 Qed.
